@@ -5,6 +5,7 @@
 pub mod atoms;
 pub mod eng;
 pub mod explore;
+pub mod layout;
 pub mod prelude;
 pub mod props;
 pub mod report;
